@@ -98,7 +98,9 @@ func engineCABI(rc *RunCtx) *Outcome {
 			c.stateRows[i] = initialStateRow(c.Model, c.desc, c.cols[i%c.P], c.MaxDim)
 		}
 		c.padRows()
-		// InitialiseStates(nCells) sizes from cell 0: all cells share the width class already
+		// (the rows were replaced: the caller's buffer has the re-initialised rows' width, which is
+		// what InitialiseStates(nCells) of the library produces - cell 0 holds the widest vector)
+		width = len(c.stateRows[0])
 	}
 	c.refOut, c.refFin = nil, nil
 	if huge {
